@@ -169,6 +169,56 @@ theorem series_equal_times_witness :
       [⟨0, [⟨0, ⟨-2, 0⟩⟩, ⟨1, ⟨2, 0⟩⟩]⟩, ⟨0, [⟨5, ⟨8/5, 1/10⟩⟩, ⟨7, ⟨-8/5, 1/10⟩⟩]⟩] c03Maps v 0)) = [0, 0, 0, 0] := by
   decide +kernel
 
+/-- C03 END TO END FROM THE SERIES.  `b` is the right-hand side the code builds at a frame of the series (forward or
+    backward difference, any numbering of the neighbouring frame, any non-zero elapsed time).  If the assembled matrix
+    maps the true tensions to it (`series_forward_balance` / `series_backward_balance`), the tensions are non-negative with
+    mean one and the augmented matrix is injective, then every non-negative least-squares minimiser of the augmented
+    system — what each of the back-ends returns — is (true tensions, 0). -/
+theorem series_recovers_tensions (inp : FMInput) (len : Id → Nat → Rat) (tau : Nat → Rat) (b y : List Rat)
+    (hk : ∃ r ∈ inp.build.rows, r.2.1 = true)
+    (hb : mulVec (normalisedMatrix inp len) (tauVec inp.build.used.length tau) = b)
+    (hnn : ∀ c < inp.build.used.length, 0 ≤ tau c)
+    (hsum : (tauVec inp.build.used.length tau).sum = (inp.build.used.length : Rat))
+    (hy : y.length = inp.build.used.length + 1)
+    (hinj : ∀ x x' : List Rat, x.length = inp.build.used.length + 1 → x'.length = inp.build.used.length + 1 →
+      mulVec (addMeanOne (normalisedMatrix inp len) b).1 x = mulVec (addMeanOne (normalisedMatrix inp len) b).1 x' →
+      x = x')
+    (hmin : ∀ x : List Rat, x.length = inp.build.used.length + 1 → (∀ v ∈ x, 0 ≤ v) →
+      residSq (addMeanOne (normalisedMatrix inp len) b).1 (addMeanOne (normalisedMatrix inp len) b).2 y
+        ≤ residSq (addMeanOne (normalisedMatrix inp len) b).1 (addMeanOne (normalisedMatrix inp len) b).2 x) :
+    y = tauVec inp.build.used.length tau ++ [0] := by
+  rw [← hb] at hinj hmin
+  refine exact_rhs_unique (normalisedMatrix inp len) (tauVec inp.build.used.length tau) y
+    (normalisedMatrix inp len).length inp.build.used.length (normalisedMatrix_pos inp len hk)
+    ⟨rfl, by simp [mulVec], normalisedMatrix_width inp len⟩ (tauVec_length _ _) ?_ hsum hy hinj hmin
+  intro v hv
+  simp only [tauVec, List.mem_map, List.mem_range] at hv
+  obtain ⟨c, hc, rfl⟩ := hv
+  exact hnn c hc
+
+/-- on the lens, with the right-hand side computed from the two-frame series `c03Frames`: whatever a back-end returns
+    as non-negative minimiser is (1, 1, 1, 1, 0) -/
+example (y : List Rat) (hy : y.length = balInp.build.used.length + 1)
+    (hmin : ∀ x : List Rat, x.length = balInp.build.used.length + 1 → (∀ v ∈ x, 0 ≤ v) →
+      residSq (addMeanOne (normalisedMatrix balInp balLen)
+            (velocityRhs balInp (fun v => c03VelOf (calculateVelocity c03Frames c03Maps v 0)))).1
+          (addMeanOne (normalisedMatrix balInp balLen)
+            (velocityRhs balInp (fun v => c03VelOf (calculateVelocity c03Frames c03Maps v 0)))).2 y
+        ≤ residSq (addMeanOne (normalisedMatrix balInp balLen)
+            (velocityRhs balInp (fun v => c03VelOf (calculateVelocity c03Frames c03Maps v 0)))).1
+          (addMeanOne (normalisedMatrix balInp balLen)
+            (velocityRhs balInp (fun v => c03VelOf (calculateVelocity c03Frames c03Maps v 0)))).2 x) :
+    y = tauVec balInp.build.used.length dynTau ++ [0] := by
+  have hrhs : velocityRhs balInp (fun v => c03VelOf (calculateVelocity c03Frames c03Maps v 0))
+      = velocityRhs balInp dynVel := by decide +kernel
+  refine series_recovers_tensions balInp balLen dynTau _ y bal_hypotheses.1 ?_ dyn_hypotheses.2.1
+    dyn_hypotheses.2.2.1 hy ?_ hmin
+  · rw [hrhs]
+    exact assembled_dynamic_balance balInp balLen balDir dynTau dynVel bal_hypotheses.2.1 bal_hypotheses.2.2.1
+      dyn_hypotheses.1
+  · rw [hrhs]; exact dyn_injective
+
+
 /-! ### 2. the whole right-hand side under superposition, motion of the series, change of clock -/
 
 /-- superposition: the right-hand side is additive in the velocity field -/
